@@ -201,6 +201,14 @@ pub enum Proj {
     TextTransitive,
     /// names cut to the documented 255-byte limit (terms and gene symbols)
     Trunc255,
+    /// transitive text whose gene file lacks some of the ancestor rows (generated against another release, filtered):
+    /// a gene record lists its direct terms and the ancestors whose row survived; links still reach every ancestor
+    TextTransitivePartial(u64),
+}
+
+/// does the (gene, ancestor term) row of a partial transitive gene file exist?
+pub fn trans_row_kept(seed: u64, gene: u32, term: u32) -> bool {
+    crate::prng::mix2(crate::prng::mix2(seed, u64::from(gene)), u64::from(term)) % 2 == 0
 }
 
 pub fn cut255(s: &str) -> String {
@@ -249,6 +257,21 @@ pub fn project(f: &FactSet, p: Proj) -> FactSet {
                 for t in &r.terms {
                     if let Some(a) = anc.get(t) {
                         s.extend(a.iter().copied());
+                    }
+                }
+                r.terms = s.into_iter().collect();
+            }
+        }
+        Proj::TextTransitivePartial(seed) => {
+            for k in KINDS {
+                g.recs_mut(k).retain(|r| !r.terms.is_empty());
+            }
+            let anc = crate::model::closure(&g);
+            for r in &mut g.genes {
+                let mut s: BTreeSet<u32> = r.terms.iter().copied().collect();
+                for t in &r.terms {
+                    if let Some(a) = anc.get(t) {
+                        s.extend(a.iter().copied().filter(|x| trans_row_kept(seed, r.id, *x)));
                     }
                 }
                 r.terms = s.into_iter().collect();
@@ -371,6 +394,16 @@ pub fn gen_name(r: &mut Prng, style: u8, text_safe: bool, longish: bool) -> Stri
         let pos = r.usize_below(s.len() + 1);
         let pos = (0..=pos).rev().find(|&p| s.is_char_boundary(p)).unwrap_or(0);
         s.insert_str(pos, e);
+    }
+    if style >= 1 && r.chance(1, 20) {
+        // a run of blanks inside the name (column-aligned legacy titles)
+        if let Some(pos) = s.find(' ') {
+            s.insert_str(pos, &" ".repeat(r.urange(2, 4)));
+        }
+    }
+    if style >= 1 && r.chance(1, 25) {
+        // a name that merely *says* obsolete: the flag is a fact of its own
+        s.insert_str(0, "obsolete ");
     }
     if style >= 2 && r.chance(1, 2) {
         let k = r.urange(1, 3);
@@ -707,6 +740,11 @@ pub fn gen_facts(r: &mut Prng, cfg: &GenCfg) -> FactSet {
                 // id 0 cannot be a replacement target: the binary format encodes "no replacement" as 0
                 if tgt != idx && ids[tgt] != 0 {
                     terms[idx].replacement = Some(ids[tgt]);
+                    // sometimes the replacement is a term this ontology does not have (a cut-out of a larger one)
+                    let foreign = ids[tgt] + 1;
+                    if r.chance(1, 5) && foreign < 10_000_000 && !ids.contains(&foreign) {
+                        terms[idx].replacement = Some(foreign);
+                    }
                 }
             }
         }
@@ -754,6 +792,9 @@ pub fn gen_facts(r: &mut Prng, cfg: &GenCfg) -> FactSet {
                     } else if r.chance(1, 10) {
                         // different genes sharing one symbol (the full ontology has 5132 genes and 5127 symbols)
                         format!("SYM{}", r.below(3))
+                    } else if cfg.names >= 1 && r.chance(1, 20) {
+                        // placeholder symbols of older releases
+                        (*r.pick(&["-", "", "-", "C1orf 12"])).to_string()
                     } else {
                         format!("G{}{}", id % 1000, if cfg.names >= 2 && r.chance(1, 6) { "é" } else { "" })
                     }
